@@ -1,7 +1,7 @@
 import EupsModel.Drv.Util
-import EupsModel.Model.PathAlg
+import EupsModel.Model.PathAct
 namespace EupsModel.Drv.C12
-open Lean EupsModel EupsModel.Drv EupsModel.PathAlg
+open Lean EupsModel EupsModel.Drv EupsModel.PathAlg EupsModel.PathAct
 
 def envOfJson (j : Json) : Except String Env := do
   let o ← j.getObj?
@@ -10,7 +10,29 @@ def envOfJson (j : Json) : Except String Env := do
 def envToJson (e : Env) : Json :=
   Json.mkObj (e.map fun (k, v) => (Str.toString k, ofStr v))
 
-def runAct (env : Env) (a : Json) : Except String Outcome := do
+def omapOfJson (j : Json) : Except String OMap := do
+  let o ← j.getObj?
+  o.toList.mapM fun (k, v) => do
+    match v with
+    | Json.null => pure (Str.ofString k, none)
+    | _ => pure (Str.ofString k, some (Str.ofString (← v.getStr?)))
+
+def omapToJson (m : OMap) : Json :=
+  Json.mkObj (m.map fun (k, v) => (Str.toString k, ofStrOpt v))
+
+def optObj (j : Json) (k : String) : Option Json :=
+  match j.getObjVal? k with
+  | .ok Json.null => none
+  | .ok v => some v
+  | .error _ => none
+
+/-- `{"root","dir","extraDir","extraExists","name","flavor","version","upsDir"}` -/
+def prodOfJson (j : Json) : Except String ProdInfo := do
+  pure { root := ← jstrOpt j "root", dir := ← jstrOpt j "dir", extraDir := ← jstr j "extraDir",
+         extraExists := ← jbool j "extraExists", name := ← jstr j "name", flavor := ← jstrOpt j "flavor",
+         version := ← jstrOpt j "version", upsDir := ← jstr j "upsDir" }
+
+def actOfJson (a : Json) : Except String (Bool × Act) := do
   let op ← (← a.getObjVal? "op").getStr?
   let fwd ← jbool a "fwd"
   let var ← jstr a "var"
@@ -18,19 +40,38 @@ def runAct (env : Env) (a : Json) : Except String Outcome := do
   | "prepend" | "append" =>
     let delim ← jstr a "delim"
     if delim.isEmpty then throw "empty delimiter"
-    pure (envPrepend (op == "append") fwd var (← jstr a "value") delim env)
-  | "set" => pure (envSet fwd var (← jstr a "value") env)
-  | "unset" => pure (envUnset fwd var env)
+    pure (fwd, .path (op == "append") var (← jstr a "value") delim)
+  | "set" => pure (fwd, .set var (← jstr a "value"))
+  | "unset" => pure (fwd, .unset var)
+  | "alias" => pure (fwd, .alias var (← jstrs a "words"))
   | _ => throw s!"unknown op {op}"
 
-/-- `{"m":"path","env":{..},"acts":[{"op","fwd","var","value","delim"}..]}`: run the actions in order,
-stop at the first error. -/
+/-- `{"m":"path","env":{..},"acts":[{"op","fwd","var","value","delim"|"words"}..],
+     "product":{..}?, "fromfile":bool?, "eupspath":str|null, "force":bool?, "oldenv":{..}?, "aliases":{..}?, "oldaliases":{..}?}`:
+macro-expand the actions' arguments when a product is given, run them in order, stop at the first error.
+`{"m":"path","macro":"text","product":{..}}` expands one argument. -/
 def handle : Handler := fun j => do
-  let mut env ← envOfJson (← j.getObjVal? "env")
-  for a in (← jarr j "acts") do
-    match ← runAct env a with
-    | .ok e => env := e
-    | .runtimeError => return Json.mkObj [("out", "RuntimeError")]
-  pure (Json.mkObj [("out", "ok"), ("env", envToJson env)])
+  let prod ← match optObj j "product" with
+    | some p => do pure (some (← prodOfJson p))
+    | none => pure none
+  match optObj j "macro", prod with
+  | some (Json.str t), some p =>
+    return Json.mkObj [("out", ofStr (PathAct.expandArg p (← jstrOpt j "eupspath") (Str.ofString t)))]
+  | _, _ => pure ()
+  let env ← envOfJson (← j.getObjVal? "env")
+  let force := match optObj j "force" with | some (Json.bool b) => b | _ => false
+  let oldEnv ← match optObj j "oldenv" with | some o => omapOfJson o | none => pure []
+  let aliases ← match optObj j "aliases" with | some o => envOfJson o | none => pure []
+  let oldAliases ← match optObj j "oldaliases" with | some o => omapOfJson o | none => pure []
+  let acts ← (← jarr j "acts").mapM actOfJson
+  let fromFile := match optObj j "fromfile" with | some (Json.bool b) => b | _ => false
+  let eupsPath ← jstrOpt j "eupspath"
+  let acts := match prod with
+    | some p => if fromFile then PathAct.fromFile p eupsPath acts else acts.map fun (f, a) => (f, a.expandAll p eupsPath)
+    | none => acts
+  match run acts { env, oldEnv, aliases, oldAliases, force } with
+  | .ok s => pure (Json.mkObj [("out", "ok"), ("env", envToJson s.env), ("aliases", envToJson s.aliases),
+      ("oldenv", omapToJson s.oldEnv), ("oldaliases", omapToJson s.oldAliases)])
+  | .runtimeError => pure (Json.mkObj [("out", "RuntimeError")])
 
 end EupsModel.Drv.C12
